@@ -408,7 +408,28 @@ func (c *Ctx) travTables(fns map[string]*ssa.Function) {
 		ic, hc := idxCalls[0], hCalls[0]
 		_, didH := s.cep[hc]
 		if !didH {
-			return zero(fa, s, ret, "nothing handed to the handler (invalid receiver, empty path or element not found)")
+			out := zero(fa, s, ret, "nothing handed to the handler (invalid receiver, empty path or element not found)")
+			// ... and only for one of these three reasons: "not found" is the lookup's verdict (which
+			// honours the negative / forward index options), never a test of its own on the path element
+			reason := false
+			for _, vc := range c.findCalls(fn, "(*stack).valid", "stack.valid") {
+				if v, known := fa.knownTerm(s, aTR, fa.term(s, vc)); known && !v {
+					reason = true
+				}
+			}
+			p1 := c.eng.tt.mk(Term{K: "P", N: 1, S: fn.Params[1].Name()})
+			if c.provesFact(fa, s, Fact{aTR, c.eng.tt.mk(Term{K: "B", S: "==", A: c.intConst(0), B: c.eng.tt.mk(Term{K: "LEN", A: p1})}), true}, nil) {
+				reason = true
+			}
+			if _, didI := s.cep[ic]; didI {
+				if v, known := fa.knownTerm(s, aTR, fa.callResultTerm(s, ic, 2)); known && !v {
+					reason = true
+				}
+			}
+			if !reason {
+				out = append(out, "the traversal gives up although the receiver is valid, the path is not empty and the lookup did not say 'not found' (a test of its own on the path element ignores the index options)")
+			}
+			return out
 		}
 		var out []string
 		// handed over only when found, and it is the element found at indices[0]
